@@ -587,6 +587,26 @@ class Engine(OpsMixin):
             except KeyError:
                 self.setitem(d, args[0], args[1] if len(args) > 1 else None)
                 return args[1] if len(args) > 1 else None
+        if name == "pop":
+            # dict.pop(key[, default]) with a symbolic key: fork over the keys it may equal
+            for k in list(d):
+                c = self.cmp("Eq", args[0], k)
+                if c is False:
+                    continue
+                if self.truth(c):
+                    return d.pop(k)
+            ent = self.symdicts.get(id(d))
+            if ent is not None:
+                for i, (k, v) in enumerate(ent[1]):
+                    c = self.cmp("Eq", args[0], k)
+                    if c is False:
+                        continue
+                    if self.truth(c):
+                        del ent[1][i]
+                        return v
+            if len(args) > 1:
+                return args[1]
+            raise KeyError(_ExcArg(args[0]))
         if name in ("items", "keys", "values"):
             extra = self.symdicts.get(id(d), (d, []))[1]
             if name == "keys":
